@@ -168,6 +168,13 @@ func (d *Directory) AddTimeBucket(tbk *io.TimeBucketKey, f *io.TimeBucketInfo) (
 
 	catkeySplit := tbk.GetCategories()
 	datakeySplit := tbk.GetItems()
+	for _, item := range datakeySplit {
+		// every item becomes a directory below the root: it must not be a path component that leaves it
+		if item == "" || item == "." || item == ".." {
+			return fmt.Errorf("invalid time bucket key %q: empty, \".\" and \"..\" components are not allowed",
+				tbk.GetItemKey())
+		}
+	}
 
 	dirname := d.GetPath()
 	for i, dataDirName := range datakeySplit {
